@@ -34,6 +34,7 @@ type cliCase struct {
 	prepRm    []string   // files removed after prep, before the judged invocation
 	prepTouch []string   // files created before prep
 	limits    bool       // run under ulimit -v / -t
+	hang      bool       // decide a hang from the process state (h.CLI.HangDetect): the case uses no timers
 	quiet     bool       // stdout and stderr must be free of task-specific complaints (platform skip)
 }
 
@@ -64,6 +65,7 @@ func runCliCases(id, scratch, bin string, cases []cliCase, part *h.Partial) map[
 			cli.Bin = "/bin/sh"
 			cli.Args = append([]string{"-c", `ulimit -v 4194304; ulimit -t 120; exec "$0" "$@"`, bin}, c.args...)
 		}
+		cli.HangDetect = c.hang
 		r := cli.Run()
 		tr := h.ReadFile(trace)
 		part.Count("cli_runs", 1)
@@ -81,7 +83,10 @@ func runCliCases(id, scratch, bin string, cases []cliCase, part *h.Partial) map[
 			}
 		}
 		sigExtra := ""
-		if r.Crashed() {
+		if r.Hung {
+			problems = append(problems, "hung: the process sat with every thread asleep, no child process and no CPU use for 20 consecutive samples (goroutine dump in stderr)")
+			sigExtra = "hang"
+		} else if r.Crashed() {
 			problems = append(problems, "crashed: "+h.Truncate(r.Stderr, 300))
 			sigExtra = "crash"
 		} else if !okExit {
@@ -257,7 +262,7 @@ func cliC07(scratch string, part *h.Partial) map[string]any {
 				a = append([]string{"--concurrency", conc}, a...)
 			}
 			cases = append(cases, cliCase{name: name + " C=" + conc, files: map[string]string{"Taskfile.yml": hdr + body}, args: a,
-				wantExit: []int{204, 201}, sig: "cycle=" + name, limits: true})
+				wantExit: []int{204, 201}, sig: "cycle=" + name, limits: true, hang: true})
 		}
 	}
 	add("self-dep", "  a:\n    deps: [a]\n")
@@ -279,6 +284,26 @@ func cliC07(scratch string, part *h.Partial) map[string]any {
 	add("once-self-dep", "  a:\n    deps: [b]\n  b:\n    run: once\n    deps: [b]\n")
 	add("alias-cycle", "  a:\n    aliases: [x]\n    deps: [y]\n  b:\n    aliases: [y]\n    deps: [x]\n")
 	add("alias-call-cycle", "  a:\n    aliases: [x]\n    cmds:\n      - task: y\n  b:\n    aliases: [y]\n    cmds:\n      - task: x\n")
+	// the task that closes the cycle also has an unrelated deduplicated dependency that finishes first (the record of
+	// who waits for whom must survive the return of that other call); the back reference comes after a command
+	busy := yamlq(`i=0; while [ $i -lt 2000 ]; do i=$((i+1)); done`)
+	for _, mode := range []string{"once", "when_changed"} {
+		top := "version: '3'\nsilent: true\nrun: " + mode + "\ntasks:\n"
+		for name, body := range map[string]string{
+			"sibling-first-deps":  "  a:\n    deps: [quick, b]\n  quick:\n    cmds:\n      - " + probe("q") + "\n  b:\n    cmds:\n      - " + busy + "\n      - task: a\n",
+			"sibling-first-calls": "  a:\n    cmds:\n      - task: quick\n      - task: b\n  quick:\n    cmds:\n      - " + probe("q") + "\n  b:\n    cmds:\n      - task: quick\n      - " + busy + "\n      - task: a\n",
+			"sibling-first-three": "  a:\n    deps: [quick, b]\n  quick:\n    cmds:\n      - " + probe("q") + "\n  b:\n    deps: [quick]\n    cmds:\n      - " + busy + "\n      - task: c\n  c:\n    deps: [quick]\n    cmds:\n      - " + busy + "\n      - task: a\n",
+		} {
+			for _, conc := range []string{"", "2"} {
+				args := []string{"a"}
+				if conc != "" {
+					args = []string{"--concurrency", conc, "a"}
+				}
+				cases = append(cases, cliCase{name: name + " run=" + mode + " C=" + conc, files: map[string]string{"Taskfile.yml": top + body}, args: args,
+					wantExit: []int{204, 201}, sig: "cycle=" + name + "/" + mode, limits: true, hang: true})
+			}
+		}
+	}
 	add("wildcard-cycle", "  a:\n    deps: ['w-1']\n  'w-*':\n    deps: ['w-{{index .MATCH 0}}']\n")
 	return runCliCases("C07", scratch, bin, cases, part)
 }
